@@ -132,6 +132,33 @@ check(
     "DESIGN.md 4/C18",
 )
 
+check(
+    "C04",
+    "other",
+    "solver-chosen fault schedules replayed end to end: after an edit, run 2 is executed by the real mypy command with the metadata-store classes wrapped from outside (vf/shim/sitecustomize.py, guarded by PYTHON_MYPY_VERIF=1); the schedule - the store operation before which the process is killed (os._exit) and/or the subset of writes that fail - is a set of z3 variables whose every value within the bound is explored; run 3 (warm) must print exactly what a cold run prints. Both stores, two edit kinds (thorough: three, plus -n 2 with faults in every process). Each violating history is identified canonically by which records the interrupted run left durable.",
+    "trusted: z3 (schedule enumeration only); kill = os._exit before a store operation; operations themselves atomic; whole-second source mtimes kept distinct. Known findings: new meta accepted with stale meta_ex.",
+    "fault-schedule exploration driven by z3 over the real store protocol, replayed end to end (warm vs cold)",
+    "DESIGN.md 4/C04",
+)
+
+check(
+    "C07",
+    "other",
+    "bounded symbolic verification of the coordinator's scheduling kernel: the scheduling loop extracted from build.process_graph and the real BuildManager.submit/submit_to_workers/get_scc_batch/max_batch_size/wait_for_done/wait_for_done_workers run on a shell manager with stubbed transport; the solver chooses the SCC DAG (3/4 SCCs), the size hints, the number of workers (1..3) and, at every wait, which busy workers' responses arrive. For every schedule: an SCC is sent only after its dependencies reported interface-done, every SCC is sent exactly once, a worker gets a batch only after its implementation response, the loop terminates with everything done, bookkeeping stays in range. Equality of diagnostics with the sequential build is not claimed (needs real workers).",
+    "trusted: z3; stubs for send/ready_to_read/receive/response decoding/find_stale_sccs; workers answer each batch with one interface and one implementation response",
+    "symbolic execution of real Python source with z3 (decision-replay) over all completion orders within the bound, partitioned over processes",
+    "DESIGN.md 4/C07",
+)
+
+check(
+    "C10",
+    "other",
+    "bounded symbolic verification that the ordering kernels do not depend on set iteration order: graph_utils.strongly_connected_components/prepare_sccs/topsort and build.sorted_components_inner/order_ascc/deps_filtered/transitive_dep_hash are executed from a source rewrite in which every set/frozenset (constructor calls, displays, comprehensions) iterates in an order given by solver-chosen ranks (a hash-seed model); graphs over 3 modules (every edge absent/direct/indirect) and State.order permutations are solver-chosen too; the SCC sequence, the order inside SCCs and the token stream fed to the transitive-dependency hash must equal the canonical ones. Narrow: whole-run hash-seed independence and independence from earlier builds in the same process are not encodable and not claimed.",
+    "trusted: z3; set iteration modelled as a per-run total order on elements; typed token buffer instead of WriteBuffer for the hash input",
+    "symbolic execution of a source rewrite of the real code with solver-chosen set iteration orders; replay under 48 PYTHONHASHSEEDs",
+    "DESIGN.md 4/C10",
+)
+
 ALL = [f"C{i:02d}" for i in range(1, 21)]
 
 
